@@ -13,7 +13,7 @@ namespace Req.H2
 open Req.Proto Req.Ascii Req.BStr Req.Url Req.Validate Req.HeaderSort Req.H1
 
 inductive Flavor | h2 | h3
-deriving DecidableEq, Repr, BEq
+deriving DecidableEq, Repr
 
 structure FReq where
   method : Bytes
@@ -32,7 +32,7 @@ deriving Repr
 
 inductive FErr
   | nonAsciiHost | invalidHost | invalidPath | invalidHeader
-deriving Repr, BEq, DecidableEq
+deriving Repr, DecidableEq
 
 def lc (s : String) : Bytes := s.toUTF8.toList
 
